@@ -509,7 +509,8 @@ class Gen:
     permutation, constrained patterns occur in the expanded name of the constraining rule (temporaries:
     in its own text), option/argument patterns are named patterns occurring in some rule name."""
 
-    def __init__(self, rng, max_rules=6, max_len=4, signing=0.5, p_forward=0.15, p_redef=0.18, p_twin=0.5, force_twin=0.0, carried=0.0, dual=0.0):
+    def __init__(self, rng, max_rules=6, max_len=4, signing=0.5, p_forward=0.15, p_redef=0.18, p_twin=0.5, force_twin=0.0, carried=0.0, dual=0.0,
+                 foreign=0.0, flat=0.0):
         self.rng = rng
         self.max_rules = max_rules
         self.max_len = max_len
@@ -520,6 +521,9 @@ class Gen:
         self.force_twin = force_twin
         self.carried = carried
         self.dual = dual
+        self.foreign = foreign        # P(a constraint inherited through a reference onto a pattern only the referring rule has)
+        self.flat = flat              # P(a rule written like ONE chain of another rule, with signers of its own)
+        self.stat = {'foreign': 0, 'flat': 0}
 
     def schema(self):
         rng = self.rng
@@ -653,7 +657,143 @@ class Gen:
                     t = json.loads(json.dumps(rules[k]))
                     t['sign'] = [rng.choice(other)]
                     rules.append(t)
+            if rng.random() < self.foreign:
+                self._foreign(rules)
+            if rng.random() < self.flat:
+                self._flat(rules, perm, pos)
         return rules
+
+    def _foreign(self, rules):
+        """A rule A constrains a NAMED pattern q that its own expanded name does not contain (legal as soon as q occurs
+        in some name); a rule B refers to #A and has q in its own part of the name: B inherits the constraint, for A
+        itself it is without effect."""
+        rng = self.rng
+        pats = lambda q: self.pats.get(q, set())
+        pairs = []
+        for b in rules:
+            own = [i['p'] for i in b['name'] if i['k'] == 'p' and i['p'][0] != '_']
+            for it in b['name']:
+                if it['k'] == 'r':
+                    qs = sorted({q for q in own if q not in pats(it['r'])})
+                    if qs:
+                        pairs.append((it['r'], qs))
+        if not pairs:
+            # no such pair yet: a new rule  #rf: #A/q  (or q/#A)
+            cands = [a for a in sorted(self.minlen) if a[1] != '_' and self.minlen[a] <= 2]
+            if not cands:
+                return
+            a = rng.choice(cands)
+            free = [q for q in NAMED if q not in pats(a)] or ['e']
+            q = rng.choice(free)
+            name = [R(a), P(q)] if rng.random() < 0.7 else [P(q), R(a)]
+            sign = [rng.choice(cands)] if rng.random() < 0.5 else []
+            rules.append(rule('#rf', name, sign=sign))
+            self.minlen['#rf'] = self.minlen[a] + 1
+            self.pats['#rf'] = pats(a) | {q}
+            self.uses['#rf'] = {'#rf'} | self.uses.get(a, {a})
+            pairs = [(a, [q])]
+        a, qs = rng.choice(pairs)
+        q = rng.choice(qs)
+        occurring = sorted({i['p'] for r in rules for i in r['name'] if i['k'] == 'p' and i['p'][0] != '_'})
+        self._own = sorted(pats(a))
+        defs = [r for r in rules if r['id'] == a]
+        for d in (defs if rng.random() < 0.5 else [rng.choice(defs)]):
+            mk = lambda: CONS(q, *[self._option(occurring) for _ in range(rng.choice([1, 1, 2]))])
+            if not d['cons']:
+                d['cons'] = [[mk()]] if rng.random() < 0.6 else [[mk()], [mk()]]
+            elif rng.random() < 0.6:
+                c = mk()
+                for cs in d['cons']:
+                    cs.append(json.loads(json.dumps(c)))
+            else:
+                rng.choice(d['cons']).append(mk())
+        self.stat['foreign'] += 1
+
+    def _expand_one(self, rules, r, depth=0):
+        """one chain of definition r as the compiler builds it: (name without references, constraints in the order
+        own alternative first, then those of the inlined definitions in name order); None when too deep"""
+        rng = self.rng
+        cons = json.loads(json.dumps(rng.choice(r['cons']))) if r['cons'] else []
+        name = []
+        for it in r['name']:
+            if it['k'] != 'r':
+                name.append(dict(it))
+                continue
+            defs = [d for d in rules if d['id'] == it['r']]
+            sub = self._expand_one(rules, rng.choice(defs), depth + 1) if defs and depth < 6 else None
+            if sub is None:
+                return None
+            name += sub[0]
+            cons += sub[1]
+        return name, cons
+
+    def _flat(self, rules, perm, pos):
+        """A rule D1 with SEVERAL chains (alternative constraint sets, references to rules with alternatives or several
+        definitions) and a definition D2 - of the same identifier, or of one that sorts before / after it, written
+        before or after D1 - that is the text of ONE chain of D1: D2 ends where that chain ends.  D1 and D2 get
+        non-empty, different signer lists (the signers of a definition are the signers of THAT definition only)."""
+        rng = self.rng
+        nchains = {}
+
+        def chains(rid, seen=()):
+            if rid in nchains:
+                return nchains[rid]
+            n = 0
+            for d in rules:
+                if d['id'] == rid:
+                    k = max(1, len(d['cons']))
+                    for it in d['name']:
+                        if it['k'] == 'r' and it['r'] not in seen:
+                            k *= max(1, chains(it['r'], seen + (rid,)))
+                    n += k
+            nchains[rid] = n
+            return n
+
+        def nch(d):
+            k = max(1, len(d['cons']))
+            for it in d['name']:
+                if it['k'] == 'r':
+                    k *= max(1, chains(it['r']))
+            return k
+        cands = [d for d in rules if d['id'][1] != '_' and self.minlen.get(d['id'], 2) <= 3]
+        plain = lambda d: not any(i['k'] == 'p' and i['p'][0] == '_' for i in d['name'])
+        multi = [d for d in cands if nch(d) >= 2]
+        pool = [d for d in multi if plain(d)] or multi
+        if pool and rng.random() < 0.8:
+            d1 = rng.choice(pool)
+        else:
+            # give a rule with a named pattern of its own two alternative constraint sets
+            own = [d for d in cands if any(i['k'] == 'p' and i['p'][0] != '_' for i in d['name'])]
+            if not own:
+                return
+            d1 = rng.choice([d for d in own if plain(d)] or own)
+            p_ = rng.choice([i['p'] for i in d1['name'] if i['k'] == 'p' and i['p'][0] != '_'])
+            l1, l2 = rng.sample(self.lits + ['u'], 2)
+            if not d1['cons']:
+                d1['cons'] = [[CONS(p_, V(l1))], [CONS(p_, V(l2))]]
+            elif len(d1['cons']) == 1:
+                d1['cons'].append([CONS(p_, V(l1))])
+        ex = self._expand_one(rules, d1)
+        if ex is None or not 1 <= len(ex[0]) <= 4:
+            return
+        name, cons = ex
+        x = rng.random()
+        rid = d1['id'] if x < 0.4 else '#f1' if x < 0.6 else '#s1'
+        d2 = rule(rid, name, cons=[cons] if cons else [])
+        # signers: existing rules that may sign d1 / d2 without closing a cycle, else a key rule of its own
+        def key_rule(kid, lit):
+            qs = [i['p'] for i in name if i['k'] == 'p' and i['p'][0] != '_']
+            rules.append(rule(kid, [V(lit), V('KEY' if lit != 'KEY' else 'x'), P(rng.choice(qs)) if qs else P('_')]))
+            return kid
+        later = [q for q in perm if d1['id'] in pos and pos[q] > pos[d1['id']]]
+        if not d1['sign']:
+            d1['sign'] = [rng.choice(later)] if later else [key_rule('#kf1', rng.choice(self.lits))]
+        have = set().union(*[set(r['sign']) for r in rules if r['id'] == d1['id']])
+        other = [q for q in later if q not in have]
+        d2['sign'] = [rng.choice(other)] if other and rng.random() < 0.7 else [key_rule('#kf2', rng.choice(self.lits))]
+        k = rules.index(d1)
+        rules.insert(k + rng.choice([0, 1]), d2)
+        self.stat['flat'] += 1
 
     def _rule(self, rid, refs, sib=()):
         rng = self.rng
